@@ -45,8 +45,8 @@ class Problem:
     # -- RATES + KINETICS component text ------------------------------------------------------------------------
     def rates(self, trace=False):
         p = self.p
-        cbk = lambda name: (f" 25 dummy = CALLBACK(TOTAL_TIME, M, \"{name}\")\n 26 dummy = CALLBACK(TIME, moles, \"{name}_\")\n"
-                            if trace else "")
+        # one event per evaluation and only for the clock reactant A (the check counts evaluations and follows A's amount)
+        cbk = lambda name: (f" 25 dummy = CALLBACK(TOTAL_TIME, M, \"{name}\")\n" if trace and name == "A" else "")
         if self.kind == "zero":
             return ("RATES\n A\n -start\n 10 rate = PARM(1)\n 20 moles = rate * TIME\n" + cbk("A") + " 30 SAVE moles\n -end\n")
         if self.kind == "first":
